@@ -1,5 +1,6 @@
 import NavisModel.Proofs.RerootLemmas
 import NavisModel.Proofs.RerootEdgesLemmas
+import NavisModel.Proofs.ConnSubLemmas
 /-!
 # C10 — reroot, cut and subset change the tree exactly as specified
 
@@ -137,6 +138,41 @@ theorem cut_edges_count (t : Table) (hw : WF t) (c : Int) (d p : Table) (h : cut
     (edges d).length + (edges p).length = (edges t).length := by
   rw [← List.length_append]; exact (edges_cut_perm hw h).length_eq
 
+
+/-! ### `subset_neuron(prevent_fragments=True)`: the connected subgraph -/
+
+/-- Every requested node that exists is included in the connected subgraph. -/
+theorem prevent_fragments_contains_request (t : Table) (hw : WF t) (ss : List Int) (s : Int) (hs : s ∈ ss)
+    (hi : s ∈ ids t) : s ∈ (connectedSubgraph t ss).1 := by
+  obtain ⟨ap, h1, _, h3⟩ := connSub_spec hw ss
+  obtain ⟨r, hr, hrm, _⟩ := rootOf_spec hw hi
+  obtain ⟨l, hl, hsl, _⟩ := exists_ssLeaf_below hw ss (t.length + 1) s hi hs (by omega)
+  have hlt : l ∈ treeLeafs t ss r := mem_treeLeafs.mpr ⟨hl, by rw [← anc_rootOf hw hsl]; exact hr⟩
+  have hspec := h1 r hrm (List.ne_nil_of_mem hlt)
+  obtain ⟨l', hl', hsl', hap⟩ := hspec.covers s hs hi (by simp [inTree, hr])
+  exact (h3 s).mpr ⟨r, hrm, l', hl', hsl', hap⟩
+
+/-- Only existing nodes are included. -/
+theorem prevent_fragments_sub_ids (t : Table) (hw : WF t) (ss : List Int) :
+    ∀ x ∈ (connectedSubgraph t ss).1, x ∈ ids t := connSub_sub_ids hw ss
+
+/-- The included set is connected within every tree of the forest (at most one kept top per tree), so
+subsetting to it creates no additional fragments. -/
+theorem prevent_fragments_connected (t : Table) (hw : WF t) (ss : List Int) :
+    TreeConnected t (connectedSubgraph t ss).1 := connSub_treeConnected hw ss
+
+/-- **Minimality**: every superset of the request that is connected within each tree contains the
+included set — `connected_subgraph` adds exactly the nodes needed to bridge the request, for every forest,
+every labelling and every request. -/
+theorem prevent_fragments_minimal (t : Table) (hw : WF t) (ss K : List Int) (hsup : ∀ s ∈ ss, s ∈ K)
+    (hconn : TreeConnected t K) : ∀ x ∈ (connectedSubgraph t ss).1, x ∈ K := connSub_min hw ss K hsup hconn
+
+/-- The reroot navis performs after subsetting changes nothing: the new roots are already the tops of
+the included set, so `subset_neuron(prevent_fragments=True)` *is* `subset` on the connected subgraph
+(and therefore inherits `subset_exact_ids`, `subset_exact_links`, `subset_wf`). -/
+theorem prevent_fragments_is_subset (t : Table) (hw : WF t) (ss : List Int) :
+    subsetPF t ss = subset t fun i => (connectedSubgraph t ss).1.contains i := subsetPF_eq hw ss
+
 /-! ### Non-vacuity -/
 
 def ex : Table := [⟨1, -1, 0, 0, 0, .root⟩, ⟨2, 1, 3, 0, 0, .branch⟩, ⟨3, 2, 6, 0, 0, .end_⟩, ⟨4, 2, 3, 4, 0, .end_⟩]
@@ -151,5 +187,8 @@ example : uedges (reroot ex 4) = [(1, 2), (2, 4), (2, 3)] ∧ uedges ex = [(1, 2
 -- cut: the edge 2 → 1 stays proximal, the cut node is a root of the distal piece
 example : (cut ex 2).map (fun dp => (edges dp.1, edges dp.2)) = some ([(3, 2), (4, 2)], [(2, 1)]) ∧
     edges ex = [(2, 1), (3, 2), (4, 2)] := by decide
+
+-- prevent_fragments: requesting the two tips 3 and 4 pulls in the fork 2 (and nothing else)
+example : connectedSubgraph ex [3, 4] = ([4, 2, 3], [2]) ∧ ids (subsetPF ex [3, 4]) = [2, 3, 4] := by decide
 
 end Navis.Props.C10
